@@ -351,6 +351,11 @@ func (m *Machine) selectField(env *Env, base CV, name string) CV {
 				return CV{V: app(fn.Ret, fn.Name, b), Signed: true}
 			}
 		}
+		for fname, fn := range m.prelude.Funcs {
+			if len(fn.Params) == 1 && fn.Params[0] == b.Sort && strings.HasSuffix(fname, "."+name) && !strings.HasPrefix(fname, "G.") && !strings.HasPrefix(fname, "T.") {
+				return CV{V: app(fn.Ret, fn.Name, b), Signed: true}
+			}
+		}
 	}
 	m.everr("cannot select %s", name)
 	return CV{}
@@ -459,12 +464,19 @@ func (m *Machine) evBin(env *Env, x *Expr) CV {
 			return CV{V: BVSub(l, r), Signed: signed}
 		case "*":
 			return CV{V: BVMul(l, r), Signed: signed}
-		case "/":
-			if signed {
-				return CV{V: BVSDiv(l, r), Signed: true}
+		case "/", "%":
+			if q, rm, ok := m.divConst(env.cur, l, r, signed); ok {
+				if op == "/" {
+					return CV{V: q, Signed: signed}
+				}
+				return CV{V: rm, Signed: signed}
 			}
-			return CV{V: BVUDiv(l, r)}
-		case "%":
+			if op == "/" {
+				if signed {
+					return CV{V: BVSDiv(l, r), Signed: true}
+				}
+				return CV{V: BVUDiv(l, r)}
+			}
 			if signed {
 				return CV{V: BVSRem(l, r), Signed: true}
 			}
